@@ -16,8 +16,10 @@ from typing import Any
 from . import env
 
 VERIF = env.VERIF_DIR
-EVIDENCE_DIR = os.path.join(VERIF, "evidence")
-REPLAY_DIR = os.path.join(VERIF, "replays")
+# runs against a scratch copy (mutation campaign) must not overwrite the real evidence / replays
+_ALT = os.environ.get("RV_OUT_DIR")
+EVIDENCE_DIR = os.path.join(_ALT, "evidence") if _ALT else os.path.join(VERIF, "evidence")
+REPLAY_DIR = os.path.join(_ALT, "replays") if _ALT else os.path.join(VERIF, "replays")
 KNOWN_FILE = os.path.join(VERIF, "known_findings.json")
 PY = sys.executable
 
